@@ -246,6 +246,10 @@ func (s *Sim) writeConfig(host, inc string, n int, cli bool) (cfgPath, lockfile 
 		w("  high_replication_mark: %s", dur(c.OptHighMs))
 		w("  low_replication_mark: %s", dur(c.OptLowMs))
 	}
+	if c.CustomLagQuery {
+		w("queries:")
+		w("  replication_lag: \"SELECT verif_lag AS Seconds_Behind_Master\"")
+	}
 	w("exclude_users: [ \"%s\" ]", "mysync-admin")
 	w("test_disk_usage_file: %s/disk_usage", hd)
 	w("test_filesystem_readonly_file: %s/fs_readonly", hd)
